@@ -696,7 +696,7 @@ func (s *Server) netServe() error {
 				pr.rd = rdbuf
 				pr.wr = client
 				msgs, err := pr.ReadMessages()
-				for _, msg := range msgs {
+				for i, msg := range msgs {
 					// Just closing connection if we have deprecated HTTP or WS connection,
 					// And --http-transport = false
 					if !s.http && (msg.ConnType == WebSocket ||
@@ -753,6 +753,9 @@ func (s *Server) netServe() error {
 								client.in = InputStream{}
 								client.pr.rd = rwc
 								client.pr.wr = rwc
+								// the commands that followed in the same packet
+								// are the first thing the new owner reads
+								client.pr.pending = msgs[i+1:]
 								client.closer = nil
 								wg.Done()
 								detached = true
@@ -1613,6 +1616,10 @@ type PipelineReader struct {
 	wr     io.Writer
 	packet [0xFFFF]byte
 	buf    []byte
+	// pending holds complete messages that were parsed from the last packet
+	// but not handled yet, because the connection was handed over (to a
+	// subscription, a live fence, ...) by an earlier message of that packet.
+	pending []*Message
 }
 
 const kindHTTP redcon.Kind = 9999
@@ -1827,6 +1834,10 @@ func readNextCommand(packet []byte, argsIn [][]byte, msg *Message, wr io.Writer)
 // ReadMessages ...
 func (rd *PipelineReader) ReadMessages() ([]*Message, error) {
 	var msgs []*Message
+	if len(rd.pending) > 0 {
+		msgs, rd.pending = rd.pending, nil
+		return msgs, nil
+	}
 moreData:
 	n, err := rd.rd.Read(rd.packet[:])
 	if err != nil {
